@@ -26,7 +26,7 @@ import copy
 from typing import Any
 
 from ..engine.absint import Obj
-from ..engine.normalize import positional
+from ..engine.normalize import _bind, _helper_target, positional
 from ..engine.order import Atom
 from ..engine.report import AnalysisError, Run, first_line
 from ..engine.resolver import FuncNode, Program, walk_no_nested
@@ -74,13 +74,128 @@ def _agree(dicts: list[dict[str, Any]]) -> dict[str, Any]:
 
 
 # ------------------------------------------------------------------------------------------ advertised
-def _validated_fn(node: FuncNode, qual: str) -> ast.FunctionDef:
-    """The closure of `calculate` that builds one component's PowerBounds from its metrics."""
-    cands = [n for n in ast.walk(node) if isinstance(n, ast.FunctionDef) and n is not node
-             and find_calls(n, lambda c: _callee(c) == "PowerBounds")]
-    if len(cands) != 1:
-        raise AnalysisError(f"{qual}: closure building PowerBounds from component metrics not found")
-    return cands[0]
+class Validated:
+    """The function that builds ONE component's PowerBounds from its metrics, found by role: a closure
+    of `calculate`, a private method or a private module function that is still called from the
+    (helper-spliced) body of `calculate` and constructs a PowerBounds.  It may return the record or a
+    tuple carrying it (`index`).  `id_param` / `metric_param` are the parameters playing the component
+    id (`<data source>.get(id)` / `[id]` yields the data object) and the requested metric ids (the loop
+    that appends `<data>.get(metric)`); `pos` maps list position -> PowerBounds field."""
+
+    def __init__(self, prog: Program, fn: Any, node: FuncNode) -> None:
+        self.prog, self.fn = prog, fn
+        self.nested = {n.name: n for n in ast.walk(node)
+                       if isinstance(n, (ast.FunctionDef, ast.AsyncFunctionDef)) and n is not node}
+        cands: dict[int, Any] = {}
+        for c in ast.walk(node):
+            if isinstance(c, ast.Call):
+                h = _helper_target(prog, fn, c, self.nested)
+                if h is not None and h is not node and isinstance(h, ast.FunctionDef) \
+                        and find_calls(h, lambda k: _callee(k) == "PowerBounds"):
+                    cands[id(h)] = h
+        if len(cands) != 1:
+            raise AnalysisError(f"{fn.qual}: the function building a component's PowerBounds from its metrics "
+                                f"is not identified ({sorted(h.name for h in cands.values())})")
+        self.node: ast.FunctionDef = next(iter(cands.values()))
+        self.name = self.node.name
+        a = self.node.args
+        self.params = [x.arg for x in a.posonlyargs + a.args + a.kwonlyargs]
+        self.index: int | None = None
+        self.pos: dict[int, str] = {}
+        self.id_param = self.metric_param = ""
+        self.reader_ok = self._analyse()
+
+    def _analyse(self) -> bool:  # noqa: C901
+        vfn = self.node
+        pb_fields = record_fields(self.prog, RESULT_MOD, "PowerBounds")
+        # lists filled by `.append`: kept symbolic while the other locals are substituted
+        filled = {s.targets[0].id if isinstance(s, ast.Assign) else s.target.id  # type: ignore[union-attr]
+                  for s in walk_no_nested(vfn) if isinstance(s, (ast.Assign, ast.AnnAssign))
+                  and isinstance(s.value, ast.List) and not s.value.elts
+                  and isinstance(s.targets[0] if isinstance(s, ast.Assign) else s.target, ast.Name)}
+        vcopy = copy.deepcopy(vfn)
+
+        class DropInit(ast.NodeTransformer):
+            def visit_FunctionDef(self, n: ast.FunctionDef) -> ast.AST:  # noqa: N802
+                return self.generic_visit(n) if n is vcopy else n
+
+            def drop(self, n: Any) -> Any:
+                t = n.targets[0] if isinstance(n, ast.Assign) else n.target
+                if isinstance(t, ast.Name) and t.id in filled and isinstance(n.value, ast.List) and not n.value.elts:
+                    return ast.copy_location(ast.Pass(), n)
+                return n
+            visit_Assign = visit_AnnAssign = drop  # noqa: N815
+
+        DropInit().visit(vcopy)
+        records: list[ast.Call] = []
+        indices: set[int | None] = set()
+        for p in returns_of(vcopy, f"{self.fn.qual}.{vfn.name}"):
+            r = p.ret
+            slots = list(enumerate(r.elts)) if isinstance(r, ast.Tuple) else [(None, r)]
+            for i, e in slots:
+                if isinstance(e, ast.Call) and _callee(e) == "PowerBounds":
+                    records.append(e)
+                    indices.add(i)
+        if not records or len(indices) != 1 or len({u(r) for r in records}) != 1:
+            return False
+        self.index = next(iter(indices))
+        bases: set[str] = set()
+        a = positional(records[0], pb_fields)
+        for f, v in a.items():
+            if isinstance(v, ast.Subscript) and isinstance(v.value, ast.Name) and isinstance(v.slice, ast.Constant) \
+                    and isinstance(v.slice.value, int):
+                self.pos[v.slice.value] = f
+                bases.add(v.value.id)
+        if not (set(a) == set(pb_fields) and sorted(self.pos) == [0, 1, 2, 3] and len(bases) == 1 and bases <= filled):
+            return False
+        # the indexed list holds, in request order, `<data>.get(<i-th metric id>)`
+        res = next(iter(bases))
+
+        def is_append(c: ast.Call) -> bool:
+            return method_call(c, res, "append")
+
+        loops = [s for s in walk_no_nested(vfn) if isinstance(s, ast.For) and isinstance(s.iter, ast.Name)
+                 and s.iter.id in self.params and isinstance(s.target, ast.Name) and find_calls(s, is_append)]
+        if len(find_calls(vfn, is_append)) != 1 or len(loops) != 1:
+            return False
+        try:
+            vals = [c.node.args for p, _st in sym_block(loops[0].body) for c in p.calls(is_append)]
+        except SymUnsupported:
+            return False
+        if not vals or not all(
+                len(v) == 1 and isinstance(v[0], ast.Call) and isinstance(v[0].func, ast.Attribute)
+                and v[0].func.attr == "get" and len(v[0].args) == 1 and not v[0].keywords
+                and is_name(v[0].args[0], loops[0].target.id) for v in vals) \
+                or len({u(v[0].func.value) for v in vals}) != 1:  # type: ignore[attr-defined]
+            return False
+        self.metric_param = loops[0].iter.id
+        # the data object is looked up under the component-id parameter
+        src: ast.AST = vals[0][0].func.value  # type: ignore[attr-defined]
+        if isinstance(src, ast.Name):
+            binds = [n.value for n in ast.walk(vfn) if isinstance(n, ast.NamedExpr) and is_name(n.target, src.id)]
+            binds += [n.value for n in ast.walk(vfn) if isinstance(n, ast.Assign) and len(n.targets) == 1
+                      and is_name(n.targets[0], src.id)]
+            if len(binds) != 1:
+                return False
+            src = binds[0]
+        key = src.args[0] if isinstance(src, ast.Call) and isinstance(src.func, ast.Attribute) and src.func.attr == "get" \
+            and len(src.args) == 1 and not src.keywords else src.slice if isinstance(src, ast.Subscript) else None
+        if not (isinstance(key, ast.Name) and key.id in self.params and key.id != self.metric_param):
+            return False
+        self.id_param = key.id
+        return True
+
+    def match(self, e: ast.AST | None) -> tuple[ast.AST, ast.AST] | None:
+        """(component-id argument, metric-ids argument) if `e` is the PowerBounds | None a call yields."""
+        if self.index is not None:
+            if not (isinstance(e, ast.Subscript) and isinstance(e.slice, ast.Constant) and e.slice.value == self.index):
+                return None
+            e = e.value
+        if isinstance(e, ast.Call) and self.reader_ok and _helper_target(self.prog, self.fn, e, self.nested) is self.node:
+            b = _bind(self.node, e)
+            if b is not None and self.id_param in b and self.metric_param in b:
+                return b[self.id_param], b[self.metric_param]
+        return None
 
 
 def advertised(prog: Program) -> dict[str, Any]:
@@ -88,18 +203,9 @@ def advertised(prog: Program) -> dict[str, Any]:
     if len(fn.params) != 3:
         raise AnalysisError(f"{fn.qual}: expected (self, metrics_data, working_batteries)")
     node = prepared(prog, fn)
-    vfn = _validated_fn(node, fn.qual)
-    vparams = [a.arg for a in vfn.args.args]
-    if len(vparams) != 2:
-        raise AnalysisError(f"{fn.qual}.{vfn.name}: expected (component id, metric ids)")
+    vfn = Validated(prog, fn, node)
+    vcall = vfn.match
     prov: list[tuple[str, str, str]] = []          # (kind, ids the bounds are read for, metric list)
-
-    def vcall(e: ast.AST | None) -> tuple[ast.AST, ast.AST] | None:
-        if isinstance(e, ast.Call) and is_name(e.func, vfn.name):
-            a = positional(e, vparams)
-            if set(a) == set(vparams) and len(e.args) + len(e.keywords) == 2:
-                return a[vparams[0]], a[vparams[1]]
-        return None
 
     def leaf_bat(e: ast.AST) -> str | None:
         if isinstance(e, ast.Attribute) and e.attr in FIELDS and _is_aggregator(prog, fn.module, e.value):
@@ -162,10 +268,13 @@ def advertised(prog: Program) -> dict[str, Any]:
 # ------------------------------------------------------------------------------------------ enforced
 def enforced(prog: Program) -> dict[str, Any]:
     """{'fn': _get_bounds, 'terms': PowerBounds field -> aggregation term}  (also used by C02.ADM)."""
-    fn = prog.func(f"{BMM}:BatteryManager._get_bounds")
-    if len(fn.params) != 2:
-        raise AnalysisError(f"{fn.qual}: expected (self, pairs_data)")
-    pairs = fn.params[1]
+    from ._admission import bounds_source
+
+    fn = bounds_source(prog)                       # `_get_bounds`, bound by role
+    own = [p for p in fn.params if p not in ("self", "cls")]
+    if len(own) != 1:
+        raise AnalysisError(f"{fn.qual}: expected the pairs data as the only parameter, found {own}")
+    pairs = own[0]
     node = prepared(prog, fn)
     pair_fields = record_fields(prog, BDA_MOD, "InvBatPair")
     pb_fields = record_fields(prog, RESULT_MOD, "PowerBounds")
@@ -367,61 +476,8 @@ def _enforced_groups(prog: Program) -> tuple[Any, bool, bool, bool]:
 def _metric_tables(prog: Program, adv: dict[str, Any]) -> tuple[Any, dict[str, bool]]:
     """Writer's and reader's positional tables: `results[i] -> PowerBounds field` in the closure, where
     results[i] is the value of the i-th requested metric, against the order of the metric id lists."""
-    afn, vfn = adv["fn"], adv["validated"]
-    pb_fields = record_fields(prog, RESULT_MOD, "PowerBounds")
-    metric_ids = vfn.args.args[1].arg
-    # lists the closure fills by `.append`: kept symbolic while its locals are substituted
-    filled = {s.targets[0].id if isinstance(s, ast.Assign) else s.target.id  # type: ignore[union-attr]
-              for s in walk_no_nested(vfn) if isinstance(s, (ast.Assign, ast.AnnAssign))
-              and isinstance(s.value, ast.List) and not s.value.elts
-              and isinstance(s.targets[0] if isinstance(s, ast.Assign) else s.target, ast.Name)}
-
-    class DropInit(ast.NodeTransformer):
-        def visit_FunctionDef(self, n: ast.FunctionDef) -> ast.AST:  # noqa: N802
-            return self.generic_visit(n) if n is vcopy else n
-
-        def drop(self, n: Any) -> Any:
-            t = n.targets[0] if isinstance(n, ast.Assign) else n.target
-            if isinstance(t, ast.Name) and t.id in filled and isinstance(n.value, ast.List) and not n.value.elts:
-                return ast.copy_location(ast.Pass(), n)
-            return n
-        visit_Assign = visit_AnnAssign = drop  # noqa: N815
-
-    vcopy = copy.deepcopy(vfn)
-    DropInit().visit(vcopy)
-    pb = [p.ret for p in returns_of(vcopy, f"{afn.qual}.{vfn.name}") if p.ret is not None and not _is_none(p.ret)]
-    pos: dict[int, str] = {}
-    bases: set[str] = set()
-    reader_ok = bool(pb) and all(isinstance(r, ast.Call) and _callee(r) == "PowerBounds" for r in pb) \
-        and len({u(r) for r in pb}) == 1
-    if reader_ok:
-        a = positional(pb[0], pb_fields)  # type: ignore[arg-type]
-        for f, v in a.items():
-            if isinstance(v, ast.Subscript) and isinstance(v.value, ast.Name) and isinstance(v.slice, ast.Constant) \
-                    and isinstance(v.slice.value, int):
-                pos[v.slice.value] = f
-                bases.add(v.value.id)
-        reader_ok = set(a) == set(pb_fields) and sorted(pos) == [0, 1, 2, 3] and len(bases) == 1 and bases <= filled
-    if reader_ok:
-        # the indexed list holds, in request order, `<data>.get(<i-th metric id>)`
-        res = next(iter(bases))
-        inits = [s for s in walk_no_nested(vfn) if isinstance(s, (ast.Assign, ast.AnnAssign)) and any(
-            is_name(t, res) for t in (s.targets if isinstance(s, ast.Assign) else [s.target]))]
-        reader_ok = len(inits) == 1 and isinstance(inits[0].value, ast.List) and not inits[0].value.elts
-        appends = find_calls(vfn, lambda c: method_call(c, res, "append"))
-        loops = [s for s in walk_no_nested(vfn) if isinstance(s, ast.For) and is_name(s.iter, metric_ids)
-                 and isinstance(s.target, ast.Name) and find_calls(s, lambda c: method_call(c, res, "append"))]
-        reader_ok = reader_ok and len(appends) == 1 and len(loops) == 1
-        if reader_ok:
-            try:
-                vals = [c.node.args for p, _st in sym_block(loops[0].body)
-                        for c in p.calls(lambda c: method_call(c, res, "append"))]
-            except SymUnsupported:
-                vals = []
-            reader_ok = bool(vals) and all(
-                len(v) == 1 and isinstance(v[0], ast.Call) and isinstance(v[0].func, ast.Attribute)
-                and v[0].func.attr == "get" and len(v[0].args) == 1 and not v[0].keywords
-                and is_name(v[0].args[0], loops[0].target.id) for v in vals)  # type: ignore[union-attr]
+    vfn = adv["validated"]
+    reader_ok, pos = vfn.reader_ok, vfn.pos
     init = prog.func(f"{MC}:PowerBoundsCalculator.__init__")
     written: dict[str, set[tuple[str, ...] | None]] = {"_battery_metrics": set(), "_inverter_metrics": set()}
     for p in returns_of(prepared(prog, init), init.qual):
